@@ -330,7 +330,36 @@ fn gen_names(rng: &mut Rng) -> Option<Vec<String>> {
     }
 }
 
+/// a mesh whose buffers are large and constant (zero-initialised / flat geometry): compresses by a
+/// factor of several hundred
+fn constant_mesh(rng: &mut Rng, max_vertices: usize) -> Mesh {
+    let topo = if rng.chance(1, 2) { PrimitiveTopology::PointList } else { PrimitiveTopology::TriangleList };
+    let mut mesh = Mesh::new(topo, RenderAssetUsages::MAIN_WORLD | RenderAssetUsages::RENDER_WORLD);
+    let n = max_vertices / 2 + rng.below(max_vertices as u64 / 2 + 1) as usize;
+    let zero = rng.chance(1, 2);
+    for k in 0..7 {
+        if k == 0 || rng.chance(1, 3) {
+            let w = ATTR_WIDTH[k];
+            let v = if zero { 0.0f32 } else { f32::from_bits(f32_bits(rng)) };
+            let f = vec![v; n * w];
+            let values = match w {
+                2 => VertexAttributeValues::Float32x2(f.chunks_exact(2).map(|c| [c[0], c[1]]).collect()),
+                3 => VertexAttributeValues::Float32x3(f.chunks_exact(3).map(|c| [c[0], c[1], c[2]]).collect()),
+                _ => VertexAttributeValues::Float32x4(f.chunks_exact(4).map(|c| [c[0], c[1], c[2], c[3]]).collect()),
+            };
+            mesh.insert_attribute(attr(k), values);
+        }
+    }
+    if rng.chance(1, 3) {
+        mesh.insert_indices(Indices::U32(vec![0; 3 * (n / 3)]));
+    }
+    mesh
+}
+
 pub fn random_mesh(rng: &mut Rng, max_vertices: usize) -> Mesh {
+    if max_vertices >= 1000 && rng.chance(1, 12) {
+        return constant_mesh(rng, max_vertices);
+    }
     let topo = match rng.below(5) {
         0 => PrimitiveTopology::PointList,
         1 => PrimitiveTopology::LineList,
@@ -682,6 +711,24 @@ fn gen_extent(rng: &mut Rng, max_extent: u32) -> u32 {
 
 pub fn random_image(rng: &mut Rng, max_extent: u32) -> Image {
     let formats = uncompressed_formats();
+    if max_extent >= 128 && rng.chance(1, 5) {
+        // a large image of noise: more than 64 KiB that do not compress at all
+        let format = *rng.pick(&[TextureFormat::Rgba8Unorm, TextureFormat::Rgba8UnormSrgb, TextureFormat::Rgba16Float, TextureFormat::R32Float, TextureFormat::Rgba32Float]);
+        let px = format.pixel_size();
+        let mut w = max_extent;
+        let h = max_extent;
+        while (w as usize) * (h as usize) * px > IMAGE_DATA_CAP {
+            w /= 2;
+        }
+        let data = rng.bytes((w as usize) * (h as usize) * px);
+        return Image::new(
+            Extent3d { width: w, height: h, depth_or_array_layers: 1 },
+            TextureDimension::D2,
+            data,
+            format,
+            RenderAssetUsages::MAIN_WORLD | RenderAssetUsages::RENDER_WORLD,
+        );
+    }
     let format = *rng.pick(&formats);
     let px = format.pixel_size();
     let (dim, mut w, mut h, mut d) = match rng.below(3) {
